@@ -37,12 +37,14 @@ def run(res):
     # 2. clean templates and injections
     p = harness_run(["diag", res.tier, res.seed], timeout=3000)
     n_clean = n_inj = 0
+    inj_jobs = []
     inj_hist = {}
     kind_exact = 0
     for l in p.stdout.decode("utf8").split("\n"):
         if not l:
             continue
         j = json.loads(l)
+        inj_jobs.append(j)
         if j["kind"] == "clean":
             n_clean += 1
             bad = [d for d in j["diags"] if d["level"] >= 2]
@@ -64,6 +66,9 @@ def run(res):
                         {"src": j["src"], "injection": j["injection"], "diagnostics": j["diags"]})
     # 3. location validity on clean + fuzzed inputs
     jobs = locs.load(res.tier, res.seed)
+    for j in inj_jobs:
+        j["class"] = "defect-injected" if j["kind"] == "inject" else "clean"
+    jobs = jobs + [j for j in inj_jobs if j["diags"]]
     dec_maps = locs.decode_all(jobs)
     n_diag = 0
     for j, (m1, _) in zip(jobs, dec_maps):
